@@ -70,7 +70,7 @@ type duPeer struct {
 	Val   int      `json:"val,omitempty"`
 	Provs []int    `json:"provs,omitempty"`
 	XProv []int    `json:"xprovs,omitempty"` // providers named from the OTHER network's peer list (same provider known to both DHTs)
-	Req   string   `json:"req,omitempty"` // "" ok | fail
+	Req   string   `json:"req,omitempty"`    // "" ok | fail
 }
 
 type duSc struct {
@@ -184,15 +184,70 @@ func (sd *duSide) respond(sc *duSc, key string) func(p peer.ID, n int, req *pb.M
 }
 
 func TestVerif_C15_Dual(t *testing.T) {
-	verifsim.RunCheck(t, verifsim.Check[duSc]{
-		Property: "C15", Part: "dual",
+	verifsim.RunCheck(t, dualCheck("C15", "dual", []string{"putvalue", "provide", "getvalue", "findpeer", "findprov", "wanlookup"}))
+}
+
+// C08, dual client: the merged provider stream of the WAN and LAN searches under the C08 rules (only reported providers, no
+// repeats, at most count), on the same generator restricted to FindProvidersAsync.
+func TestVerif_C08_DualMerge(t *testing.T) {
+	c := dualCheck("C08", "dual-merge", []string{"findprov"})
+	c.Rule = "rapid: the dual DHT of the C15 generator (dual.New over two simulated networks, 0-12 peers each, providers named by responders of either side, also across sides) restricted to FindProvidersAsync with count 0/1/2/5; " +
+		"oracle: every yielded peer was named as provider in an answer one of the two searches received, no peer is yielded twice, at most count peers in total, the channel is closed; " +
+		"non-trivial = providers named on both sides and more distinct providers named than count"
+	inner := c.Run
+	c.Run = func(t *testing.T, sc duSc) verifsim.Result {
+		res := inner(t, sc)
+		for i := range res.Violations {
+			res.Violations[i].Signature = strings.Replace(res.Violations[i].Signature, "C15/", "C08/dual/", 1)
+		}
+		w, l := map[int]bool{}, map[int]bool{}
+		for _, p := range sc.Wan {
+			if p.Req != "fail" {
+				for _, j := range p.Provs {
+					w[sc.Wan[j%len(sc.Wan)].ID] = true
+				}
+				for _, j := range p.XProv {
+					if len(sc.Lan) > 0 {
+						w[sc.Lan[j%len(sc.Lan)].ID] = true
+					}
+				}
+			}
+		}
+		for _, p := range sc.Lan {
+			if p.Req != "fail" {
+				for _, j := range p.Provs {
+					l[sc.Lan[j%len(sc.Lan)].ID] = true
+				}
+				for _, j := range p.XProv {
+					if len(sc.Wan) > 0 {
+						l[sc.Wan[j%len(sc.Wan)].ID] = true
+					}
+				}
+			}
+		}
+		all := map[int]bool{}
+		for k := range w {
+			all[k] = true
+		}
+		for k := range l {
+			all[k] = true
+		}
+		res.NonTrivial = len(sc.WanSeeds) > 0 && len(sc.LanSeeds) > 0 && len(w) > 0 && len(l) > 0 && sc.Count > 0 && len(all) > sc.Count
+		return res
+	}
+	verifsim.RunCheck(t, c)
+}
+
+func dualCheck(prop, part string, ops []string) verifsim.Check[duSc] {
+	return verifsim.Check[duSc]{
+		Property: prop, Part: part,
 		Rule: "rapid: a dual DHT built with dual.New over one fake host and two simulated networks (WAN, LAN; 0-12 peers each, disjoint) whose peers carry addresses of classes known by construction (public v4/v6, RFC1918, ULA, link-local, " +
 			"loopback, relay-via-public, none); WAN/LAN routing tables independently empty or seeded; host address sets mixing the classes; operations PutValue, Provide, GetValue, FindPeer, FindProvidersAsync, and a WAN lookup; oracle: writes go to " +
 			"the WAN network iff the WAN table is non-empty, GetValue prefers the WAN result, FindPeer returns the union, provider search yields no repeats and <= count, WAN requests only go to seeds, the target, or peers heard with a public non-relay " +
 			"address, the peerstore holds no non-public address for WAN-only peers, WAN ADD_PROVIDER carries only public addresses and LAN ones no loopback; non-trivial = both networks populated or mixed address classes in answers",
 		Gen: func(t *rapid.T) duSc {
 			sc := duSc{K: rapid.IntRange(1, 4).Draw(t, "k"), Key: rapid.IntRange(0, 60).Draw(t, "key")}
-			sc.Op = rapid.SampledFrom([]string{"putvalue", "provide", "getvalue", "findpeer", "findprov", "wanlookup"}).Draw(t, "op")
+			sc.Op = rapid.SampledFrom(ops).Draw(t, "op")
 			side := func(label string, base int) []duPeer {
 				n := rapid.IntRange(0, 12).Draw(t, label+"N")
 				ps := make([]duPeer, n)
@@ -384,6 +439,21 @@ func TestVerif_C15_Dual(t *testing.T) {
 						seen[p.ID] = true
 						n++
 					}
+					named := map[peer.ID]bool{}
+					for _, sm := range []*verifnet.Sim{wan.sim, lan.sim} {
+						for _, e := range sm.Log() {
+							if e.Kind == "request" && e.Outcome == "ok" && e.Resp != nil {
+								for _, pr := range e.Resp.GetProviderPeers() {
+									named[peer.ID(pr.Id)] = true
+								}
+							}
+						}
+					}
+					for id := range seen {
+						if !named[id] {
+							res.Fail("findprov-only-reported", "C15/findprov/unreported", "provider yielded that no received answer named")
+						}
+					}
 					if sc.Count > 0 && n > sc.Count {
 						res.Fail("findprov-count", "C15/findprov/over-count", "%d providers yielded, count %d", n, sc.Count)
 					}
@@ -487,7 +557,7 @@ func TestVerif_C15_Dual(t *testing.T) {
 			}
 			return
 		},
-	})
+	}
 }
 
 func classPublic(a ma.Multiaddr) bool {
